@@ -22,7 +22,7 @@ TRUSTED_BASE = [
 ]
 ASSUMPTIONS = [
     "proved: for every document valid per the specification (definition before use) parsing succeeds and canonical_form(parse j) = PcfSpec.pcf j, i.e. every reference resolves to the type the specification designates, field order / symbols / sizes preserved (C07_resolve); unknown reference, duplicate fullname, missing attribute, unconditional record cycle are errors; the cycle check is exact",
-    "use before definition (accepted by the crate, not by the specification): proved as well (C07_any_order*): the parser returns the designated graph, every reference slot holds the single node carrying the reference's specification fullname, every definition has exactly one node, and the canonical form -- when the writer produces one -- is the specification's PCF of the hoisted document; not proved: that the writer's guard against cycles of unnamed types never fires on a parsed graph (never observed in the correspondence run, which compares H1 text with the extracted pcf of the hoisted document)",
+    "use before definition (the property asks for independence of definition order; the specification text requires definition first): proved as well (C07_any_order*): the parser returns the designated graph, every reference slot holds the single node carrying the reference's specification fullname, every definition has exactly one node, and the canonical form and fingerprint are those of the specification's PCF of the hoisted document (the writer's guard against cycles of unnamed types is proved never to fire on a parsed graph); the correspondence run compares H1 text with the extracted pcf of the hoisted document",
     "three spec-allowed spellings the crate rejects are documented and excluded (type given as a nested object; a name attribute on an unnamed type takes part in the duplicate check; non-canonical size tokens like 04): C07_*_refuted",
     "logical types and their parameters are compared node by node between model and crate in the correspondence run (the canonical form drops them)",
 ]
